@@ -741,8 +741,10 @@ func (t *Topic) handleLeaveRequest(msg *ClientComMessage, sess *Session) {
 		}
 	}
 
-	if t.isInactive() {
-		if !asUid.IsZero() && msg.init {
+	if t.isInactive() && msg.init {
+		// A client's request is refused while the topic is paused or being deleted;
+		// a session which is being dropped (init is false) must be removed in any case.
+		if !asUid.IsZero() {
 			sess.queueOut(ErrLockedReply(msg, now))
 		}
 		return
